@@ -15,7 +15,7 @@ from pyvc.ty import SV, ANY, AnyS
 from pyvc.util import native_file
 
 PROPERTY = 'C10'
-UNITS = ['C10', 'C06', 'C02', 'C13', 'C18']
+UNITS = ['C10', 'C06', 'C02', 'C13', 'C18', 'C03']
 TRUSTED = ["attribute assignment is atomic (CPython): a reader sees the old or the new value of a published field"]
 ASSUMPTIONS = ["concurrency itself is not modelled: only the frame / write-once / publication discipline is proved",
                "user-supplied callbacks (lexer_callbacks are added to the shared callback table after it is assigned: note F17) and post-lexers other than Indenter are outside",
